@@ -2,4 +2,5 @@
 let () =
   match Array.to_list Sys.argv with
   | [_; "chk-topics"; path] -> Chk_topics.run path
+  | [_; "chk-codec"; path] -> Chk_codec.run path
   | _ -> prerr_endline "usage: driver chk-topics <file>"; exit 2
